@@ -14,34 +14,57 @@ Local Open Scope string_scope.
 Theorem C04_refusals_exact : forall c s ops r,
   generate c s ops = Refused r <->
   (s_frag_bad_mixin s = true /\ r = BadMixinArgs) \/
-  (s_frag_bad_mixin s = false /\ first_refusing c ops r) \/
-  (s_frag_bad_mixin s = false /\ Forall (fun o => op_refusal c o = None) ops /\
-   r = DuplicateFiles /\ ~ NoDup (checked_names c (result_files ops))).
+  (s_frag_bad_mixin s = false /\ first_refusing c [] ops r) \/
+  (s_frag_bad_mixin s = false /\ accepted c [] ops /\
+   r = DuplicateFiles /\ ~ NoDup (checked_names c s (result_files ops))).
 Proof. exact generate_refused. Qed.
 Print Assumptions C04_refusals_exact.
 
+(* [accepted] read declaratively: nobody refuses on its own and the module files are pairwise distinct *)
+Theorem C04_accepted_meaning : forall c ops,
+  accepted c [] ops <->
+  Forall (fun o => op_static_refusal c o = None) ops /\ NoDup (result_files ops).
+Proof.
+  intros c ops. rewrite accepted_iff. split; [tauto|]. intros [F D]. repeat split; auto.
+Qed.
+Print Assumptions C04_accepted_meaning.
+
+(* generation succeeds exactly when no documented condition holds: no malformed @mixin, every operation
+   named, no subscription with a synchronous client, and ALL file names that will be written pairwise
+   distinct (this subsumes the collision test between two operations) *)
 Theorem C04_generates_iff_no_condition : forall c s ops,
   (exists p, generate c s ops = Ok p) <->
-  s_frag_bad_mixin s = false /\ Forall (fun o => op_refusal c o = None) ops /\
-  NoDup (checked_names c (result_files ops)).
+  s_frag_bad_mixin s = false /\ Forall (fun o => op_static_refusal c o = None) ops /\
+  NoDup (checked_names c s (result_files ops)).
 Proof. exact generate_ok_iff. Qed.
 Print Assumptions C04_generates_iff_no_condition.
 
-(* the per-operation test, spelled out: an operation is refused iff it is anonymous, or carries a malformed
-   @mixin, or is a subscription while the client is synchronous *)
-Theorem C04_operation_conditions : forall c o,
-  (op_refusal c o = Some Anonymous <-> o_name o = None) /\
-  (op_refusal c o = Some SubscriptionSync ->
+(* the per-operation tests, spelled out: an operation is refused iff it is anonymous, or its module file
+   is already taken by an earlier operation (the documented "colliding file names" refusal: same
+   ParsingError, same message), or it carries a malformed @mixin, or it is a subscription while the client
+   is synchronous — in that order *)
+Theorem C04_operation_conditions : forall c seen o,
+  (op_refusal c seen o = Some Anonymous <-> o_name o = None) /\
+  (op_refusal c seen o = Some DuplicateFiles <-> o_name o <> None /\ In (op_file o) seen) /\
+  (op_refusal c seen o = Some SubscriptionSync ->
      o_kind o = OSubscription /\ c_async c = false) /\
-  (op_refusal c o = Some BadMixinArgs -> exists a, In a (o_mixins o) /\ mixin_ok a = false) /\
-  (op_refusal c o <> Some DuplicateFiles).
+  (op_refusal c seen o = Some BadMixinArgs -> exists a, In a (o_mixins o) /\ mixin_ok a = false).
 Proof.
-  intros c o. unfold op_refusal, o_bad_mixin, bad_mixins. destruct (o_name o) as [n|].
-  - destruct (existsb (fun a => negb (mixin_ok a)) (o_mixins o)) eqn:B.
-    + repeat split; try discriminate. intros _. apply existsb_exists in B as (a & I & N).
-      exists a. split; [exact I|]. destruct (mixin_ok a); [discriminate | reflexivity].
-    + destruct (o_kind o); destruct (c_async c); simpl; repeat split; discriminate.
-  - repeat split; discriminate.
+  intros c seen o. unfold op_refusal, op_static_refusal, o_bad_mixin, bad_mixins.
+  destruct (o_name o) as [n|].
+  - destruct (mem_chars (op_file o) seen) eqn:M.
+    + apply mem_chars_In in M. split; [split; discriminate|]. split; [|split; discriminate].
+      split; [intros _; split; [discriminate | exact M] | reflexivity].
+    + assert (~ In (op_file o) seen) as NM by (intro I; apply mem_chars_In in I; congruence).
+      destruct (existsb (fun a => negb (mixin_ok a)) (o_mixins o)) eqn:B.
+      * split; [split; discriminate|]. split; [split; [discriminate | intros [_ I]; contradiction]|].
+        split; [discriminate|]. intros _. apply existsb_exists in B as (a & I & N).
+        exists a. split; [exact I|]. destruct (mixin_ok a); [discriminate | reflexivity].
+      * destruct (o_kind o); destruct (c_async c); simpl;
+          (split; [split; discriminate|]; split; [split; [discriminate | intros [_ I]; contradiction]|];
+           split; [try discriminate; auto | discriminate]).
+  - split; [split; reflexivity|]. split; [split; [discriminate | intros [X _]; contradiction]|].
+    split; discriminate.
 Qed.
 Print Assumptions C04_operation_conditions.
 
@@ -106,30 +129,27 @@ Theorem C04_written_complete : forall c s ops p, generate c s ops = Ok p ->
 Proof.
   intros c s ops p H. destruct (generate_ok_shape _ _ _ _ H) as (W & _). rewrite W.
   repeat split; try (apply written_has; simpl; tauto).
-  - intros o n I E. apply written_has. left. apply result_files_from_in. right. exists o, n. auto.
+  - intros o n I E. apply written_has. left. apply in_map_iff. exists o. split; [apply op_file_named, E | exact I].
   - intros f I. apply written_has. right. right. left. unfold includes. rewrite in_app_iff. auto.
 Qed.
 Print Assumptions C04_written_complete.
 
-(* ---- file names are pairwise distinct ---- *)
-Definition C04_file_names_unique_full : Prop := forall c s ops p,
-  generate c s ops = Ok p -> NoDup (written p).
-
-(* proved under the guard g_c04_files = complement of finding F28: no checked name equals a file that
-   generate() writes without checking it (custom_*.py when custom operations are on, __init__.py) *)
-Theorem C04_file_names_unique_partial : forall c s ops p,
-  generate c s ops = Ok p -> g_c04_files c s ops = true ->
-  NoDup (written p) /\ NoDup (reported p).
+(* ---- file names are pairwise distinct (full strength since d2e37b3: the check covers every written
+   file and two operations cannot share a module) ---- *)
+Theorem C04_file_names_unique : forall c s ops p,
+  generate c s ops = Ok p -> NoDup (written p) /\ NoDup (reported p).
 Proof.
-  intros c s ops p H G. pose proof (written_unique _ _ _ _ H G) as N. split; [exact N|].
+  intros c s ops p H. pose proof (written_unique _ _ _ _ H) as N. split; [exact N|].
   destruct (generate_ok_shape _ _ _ _ H) as (_ & R & _). rewrite R. apply sort_nodup, N.
 Qed.
-Print Assumptions C04_file_names_unique_partial.
+Print Assumptions C04_file_names_unique.
 
-(* the keys of _result_types_files are always distinct — because a dict cannot hold the collision *)
-Theorem C04_result_files_distinct : forall ops, NoDup (result_files ops).
-Proof. exact result_files_nodup. Qed.
-Print Assumptions C04_result_files_distinct.
+Theorem C04_operations_keep_their_module : forall c s ops p,
+  generate c s ops = Ok p ->
+  forall i j a b, nth_error ops i = Some a -> nth_error ops j = Some b -> i <> j ->
+  option_map op_module (o_name a) <> option_map op_module (o_name b).
+Proof. exact modules_distinct. Qed.
+Print Assumptions C04_operations_keep_their_module.
 
 (* ---- witnesses ---- *)
 Definition cfg0 (custom : bool) (include : list chars) : cfg :=
@@ -142,43 +162,24 @@ Definition sum0 : summary :=
 Definition q (name : string) (public : list string) : op :=
   {| o_kind := OQuery; o_name := Some (s2l name); o_mixins := []; o_public := map s2l public |}.
 
-(* F28: an operation named customFields with custom operations on is not refused and its module is
-   written twice (the second write is the builder's custom_fields.py) *)
-Theorem C04_file_names_unique_refuted : ~ C04_file_names_unique_full.
-Proof.
-  intro H.
-  assert (exists p, generate (cfg0 true []) sum0 [q "customFields" ["CustomFields"]] = Ok p /\
-                    has_dup (written p) = true) as (p & E & D)
-    by (eexists; split; vm_compute; reflexivity).
-  apply H in E. apply has_dup_false_iff in E. congruence.
-Qed.
-Print Assumptions C04_file_names_unique_refuted.
+(* regression cases: the witnesses of the former refutations (findings C04-F28 / C04-F29, fixed by
+   d2e37b3) are now refused with the documented "colliding file names" refusal *)
+Example C04_former_witnesses_refused :
+  generate (cfg0 true []) sum0 [q "customFields" ["CustomFields"]] = Refused DuplicateFiles /\
+  generate (cfg0 false [s2l "__init__.py"]) sum0 [q "Q" ["Q"]] = Refused DuplicateFiles /\
+  generate (cfg0 false []) sum0 [q "GetX" ["GetX"]; q "getX" ["GetX"]] = Refused DuplicateFiles /\
+  (* the same operation name without custom operations is fine: custom_fields.py is not written *)
+  (exists p, generate (cfg0 false []) sum0 [q "customFields" ["CustomFields"]] = Ok p).
+Proof. repeat split; try (vm_compute; reflexivity). eexists. vm_compute. reflexivity. Qed.
 
-Theorem C04_file_names_unique_refuted_init : exists p,
-  generate (cfg0 false [s2l "__init__.py"]) sum0 [q "Q" ["Q"]] = Ok p /\ has_dup (reported p) = true.
-Proof. eexists. split; vm_compute; reflexivity. Qed.
-
-(* F29: two different operation names with one module name are not refused; one file, one method name,
-   and __all__ lists the shared class name twice *)
-Definition C04_operations_keep_their_module_full : Prop := forall c s ops p,
-  generate c s ops = Ok p ->
-  forall i j a b, nth_error ops i = Some a -> nth_error ops j = Some b -> i <> j ->
-  option_map op_module (o_name a) <> option_map op_module (o_name b).
-
-Theorem C04_operations_keep_their_module_refuted : ~ C04_operations_keep_their_module_full.
-Proof.
-  intro H.
-  assert (exists p, generate (cfg0 false []) sum0 [q "GetX" ["GetX"]; q "getX" ["GetX"]] = Ok p) as [p E]
-    by (eexists; vm_compute; reflexivity).
-  specialize (H _ _ _ _ E 0 1 (q "GetX" ["GetX"]) (q "getX" ["GetX"]) eq_refl eq_refl).
-  apply H; [discriminate | vm_compute; reflexivity].
-Qed.
-Print Assumptions C04_operations_keep_their_module_refuted.
-
+(* __all__ may still list a name twice: class names of DIFFERENT operation modules can coincide
+   (operation Foo selecting `animal` and operation FooAnimal both own a class FooAnimal); nothing refuses
+   that, the package imports, set(__all__) = imported names still holds (observation, not a finding) *)
 Theorem C04_all_duplicate_free_refuted : ~ C04_all_duplicate_free_full.
 Proof.
   intro H.
-  assert (exists p, generate (cfg0 false []) sum0 [q "GetX" ["GetX"]; q "getX" ["GetX"]] = Ok p /\
+  assert (exists p, generate (cfg0 false []) sum0
+                      [q "Foo" ["Foo"; "FooAnimal"]; q "FooAnimal" ["FooAnimal"]] = Ok p /\
                     has_dup (p_all p) = true) as (p & E & D)
     by (eexists; split; vm_compute; reflexivity).
   apply H in E. apply has_dup_false_iff in E. congruence.
@@ -197,8 +198,6 @@ Print Assumptions C04_module_names_valid_partial.
 Example C04_ok_example : exists p,
   generate (cfg0 true [s2l "mixins_mod.py"]) sum0
     [q "GetHTTPData" ["GetHTTPData"; "GetHTTPDataNode"]; q "listItems" ["ListItems"]] = Ok p /\
-  g_c04_files (cfg0 true [s2l "mixins_mod.py"]) sum0
-    [q "GetHTTPData" ["GetHTTPData"; "GetHTTPDataNode"]; q "listItems" ["ListItems"]] = true /\
   map l2s (reported p) =
     ["__init__.py"; "async_base_client.py"; "base_model.py"; "base_operation.py"; "client.py";
      "custom_fields.py"; "custom_queries.py"; "custom_typing_fields.py"; "enums.py"; "exceptions.py";
@@ -215,6 +214,7 @@ Example C04_refusals_reachable :
     [{| o_kind := OSubscription; o_name := Some (s2l "T"); o_mixins := []; o_public := [] |}]
     = Refused SubscriptionSync /\
   generate (cfg0 false []) sum0 [q "client" ["Client"]] = Refused DuplicateFiles /\
+  generate (cfg0 false []) sum0 [q "GetX" ["A"]; q "get_x" ["B"]] = Refused DuplicateFiles /\
   generate (cfg0 false []) sum0
     [{| o_kind := OQuery; o_name := Some (s2l "Q"); o_mixins := [[(s2l "from", true)]]; o_public := [] |}]
     = Refused BadMixinArgs /\
